@@ -38,6 +38,7 @@ type Meta struct {
 	NonTriv         int            `json:"distinct_nontrivial_frames"`
 	seen            map[string]bool
 	Samples         []CaseJSON  `json:"samples"`
+	MITM            *MITMResult `json:"mitm_h2_handoff,omitempty"`
 	E2E             []E2EResult `json:"e2e,omitempty"`
 	E2EPlayed       int         `json:"e2e_played"`
 	E2EInconclusive int         `json:"e2e_stopped_at_map_order_difference"`
@@ -153,6 +154,7 @@ func MainOpt(propWhy string, withPreface bool) {
 	replay := flag.String("replay", "", "replay file (a CaseJSON)")
 	n := flag.Int("n", 0, "number of generated histories (0: tier default)")
 	e2e := flag.Int("e2e", 0, "play up to this many refusal-free histories through h2.Config.Proxy (TLS, ALPN h2, real goroutines)")
+	mitmOnly := flag.Bool("mitm", false, "run the MITM h2 hand-off scenario (replay of that finding)")
 	tables := flag.String("tables", "", "coq/g09/Tables.v generated from the tree under test (shape flags the mirrors follow)")
 	flag.Parse()
 	if *tables != "" {
@@ -177,6 +179,14 @@ func MainOpt(propWhy string, withPreface bool) {
 		cases = append(cases, c)
 		descr = append(descr, CaseJSON{Name: name, Ops: ops, Flush: flush, Steps: c.Steps})
 		m.account(name, ops, c)
+	}
+	if *mitmOnly {
+		r := RunMITMHandoff(*out)
+		m.MITM = &r
+		data, _ := json.MarshalIndent(m, "", " ")
+		_ = os.WriteFile(filepath.Join(*out, "meta.json"), data, 0o644)
+		_ = os.WriteFile(filepath.Join(*out, "cases.jsonl"), nil, 0o644)
+		return
 	}
 	var prefaceIn [][][]byte
 	if *replay != "" {
@@ -247,7 +257,7 @@ func MainOpt(propWhy string, withPreface bool) {
 			panic(err)
 		}
 		for i, c := range cases {
-			if m.E2EPlayed >= *e2e {
+			if m.E2EPlayed >= *e2e || m.E2EFailed >= 5 {
 				break
 			}
 			if c.Dead || len(c.Steps) == 0 {
@@ -266,6 +276,13 @@ func MainOpt(propWhy string, withPreface bool) {
 			}
 		}
 		env.ln.Close()
+	}
+	if withPreface && *replay == "" {
+		r := RunMITMHandoff(*out)
+		if !r.OK { // timing-dependent: run it once more alone before reporting
+			r = RunMITMHandoff(*out)
+		}
+		m.MITM = &r
 	}
 	if withPreface {
 		if prefaceIn == nil {
